@@ -215,11 +215,16 @@ def _work(args):
             agg['steps'] += out['steps']
             agg['sim_seconds'] += out['sim_seconds']
             # commutative combination: independent of the worker count
+            # (the case itself is part of it: two generators that produce
+            # the same event logs from different cases differ here)
+            ck = case_key(case).hex()
             agg['digest'] = (agg['digest'] + int(hashlib.sha256(
-                ('%d:%s:%s' % (g, out['status'], out['digest'])).encode())
+                ('%d:%s:%s:%s' % (g, ck, out['status'],
+                                  out['digest'])).encode())
                 .hexdigest(), 16)) % (1 << 256)
             if dump is not None:
-                dump.write('%d %s %s\n' % (g, out['status'], out['digest']))
+                dump.write('%d %s %s %s\n' % (g, ck, out['status'],
+                                              out['digest']))
             for k, v in out['probes'].items():
                 agg['probes'][k] = agg['probes'].get(k, 0) + v
             for k, v in out['fired'].items():
